@@ -1533,3 +1533,94 @@ func VerifSuggest(n int) {
 		mustNot("C23-unrel2", "pb", "method-of-unrelated-class")
 	}
 }
+
+// ---- C05: run-to-run determinism ----
+
+var verifDetPrograms = []struct{ name, text string }{
+	{"static-and-instance-namesakes", "class Kk\ndef self.ff\n1\nend\ndef ff\n\"s\"\nend\nend\nclass Jj\ndef ff\n2\nend\nend\nKk.ff\nKk.new.ff\nJj.new.ff\n"},
+	{"same-class-name-in-two-modules", "module Ma\nclass Cc\ndef g\n1\nend\nend\nend\nmodule Mb\nclass Cc < String\ndef g\n2\nend\nend\nend\nx = Ma::Cc.new\nx.g\n"},
+	{"overloaded-builtin-use", "a = [1, 2]\nb = a.first\nc = a.first(1)\nd = 1 + 2\ndef hh(v)\nv\nend\nhh(1)\nhh(\"s\")\n"},
+}
+
+var verifDetModes = []string{"-i", "--suggest", "--hover", "--llm-nav", "--llm-nav --target=ff", "--llm-define", "--llm-class", "--extends --class=Cc", "--define", "", "--llm-nav --all", "--llm-define --class=Kk"}
+
+func verifSortLines(s string) string {
+	if s == "" {
+		return ""
+	}
+	ls := strings.Split(strings.TrimSuffix(s, "\n"), "\n")
+	for i := 1; i < len(ls); i++ {
+		for j := i; j > 0 && ls[j] < ls[j-1]; j-- {
+			ls[j], ls[j-1] = ls[j-1], ls[j]
+		}
+	}
+	return strings.Join(ls, "\n") + "\n"
+}
+
+// VerifDeterminism: the same program in the same output mode analysed twice from the same
+// state, where every `range` over the global signature / inheritance / call-point maps
+// iterates forward or backward (one schedule variable per range statement, chosen
+// independently in the two runs); outputs must be byte-identical (--define: as a set of lines).
+func VerifDeterminism(n int) {
+	pi := verifapi.Concrete(verifapi.Int("program", 0, len(verifDetPrograms)-1))
+	mi := verifapi.Concrete(verifapi.Int("mode", 0, len(verifDetModes)-1))
+	prog := verifDetPrograms[pi]
+	mode := verifDetModes[mi]
+	src := prog.text
+	row := verifCountLines(src) // last line (a call)
+	flags := cmd.NewExecuteFlags()
+	args := []string{"ti", "./a.rb"}
+	for _, f := range strings.Fields(mode) {
+		args = append(args, f)
+	}
+	switch strings.Fields(mode + " x")[0] {
+	case "-i":
+		flags.IsDefineInfo = true
+	case "--suggest":
+		flags.IsSuggest = true
+	case "--hover":
+		flags.IsHover = true
+	case "--llm-nav":
+		if strings.Contains(mode, "--all") {
+			flags.IsLlmNavAll = true
+		} else {
+			flags.IsLlmNav = true
+		}
+	case "--llm-define":
+		flags.IsLlmDefine = true
+	case "--llm-class":
+		flags.IsLlmClass = true
+	case "--extends":
+		flags.IsExtends = true
+	case "--define":
+		flags.IsDefineAllInfo = true
+	}
+	target := 0
+	if flags.IsSuggest || flags.IsHover || flags.IsDefineAllInfo {
+		target = row
+		args = append(args, "--row="+verifItoa(row))
+	}
+	os.Args = args
+	verifapi.Witness("src", src)
+	verifapi.Witness("flags", strings.Join(args[2:], " "))
+	verifapi.FlipOrder(base.TSignatures)
+	verifapi.FlipOrder(base.ClassInheritanceMap)
+	verifapi.FlipOrder(base.MethodCallPoint)
+	verifapi.FlipOrder(base.MethodCalleePoint)
+	verifapi.FlipOrder(base.TSignatureDocument)
+	mark := verifapi.Snapshot()
+	outA := verifRunFlags(src, flags, target)
+	verifapi.Restore(mark)
+	outB := verifRunFlags(src, flags, target)
+	verifapi.Reach("ran")
+	modeName := mode
+	if modeName == "" {
+		modeName = "diagnostics"
+	}
+	verifapi.Classify("C05/output-depends-on-map-iteration-order/" + strings.ReplaceAll(modeName, " ", "_") + "/" + prog.name)
+	if flags.IsDefineAllInfo {
+		verifapi.Assert(verifSortLines(outA) == verifSortLines(outB), "C05-same-output")
+	} else {
+		verifapi.Assert(outA == outB, "C05-same-output")
+	}
+}
